@@ -83,7 +83,12 @@ func (r *Report) finish(e *Engine, units []*UnitResult, obls []*Obligation, verb
 	var failed []*Obligation
 	var vacuous []*Obligation
 	covers := 0
+	skipped := 0
 	for _, o := range obls {
+		if o.Status == "skipped" {
+			skipped++
+			continue
+		}
 		if o.Cover {
 			covers++
 			if o.Status == "unsat" {
@@ -168,6 +173,9 @@ func (r *Report) finish(e *Engine, units []*UnitResult, obls []*Obligation, verb
 			fmt.Printf("UNIT-ERROR %s: %s\n", u.Func, u.Err)
 		}
 		report("unit:"+u.Func+"/"+u.Aspect, "the function could not be verified against its contract: "+u.Err, "", u.ErrKind, u.Err, "")
+	}
+	if skipped > 0 {
+		fmt.Printf("fail-fast run: %d obligations not attempted after the first undischarged one\n", skipped)
 	}
 	broken := false
 	for _, o := range vacuous {
